@@ -37,7 +37,12 @@ RULE = (
     "include/render/extends names against a recording loader, with, macro/call, "
     "translate), names given as strings (macro, block, cycle group, increment, alias), "
     "template-string text parts and literals inside ${...}, {% liquid %} line statements, "
-    "ternaries, array literals, lambdas.  number cases = (literal text, site) for ints "
+    "ternaries, array literals, lambdas, and a few of them again under auto_escape=True "
+    "(decided by comparison / lookup).  Every 7th evaluation renders through render_async.  "
+    "A failing case is delta-debugged over its characters; the mechanism key is "
+    "<site>:<spelling features of the minimal literal> (or <site>:not-unescaped when the "
+    "engine used the raw source text, <site>:rejected:<features> when a valid literal was "
+    "refused).  number cases = (literal text, site) for ints "
     "up to 10**40 (+/-, 2**53 and 10**k neighbourhoods), e/E/e+ exponents and decimal / "
     "scientific float spellings, compared by printed digits and by == against exact data "
     "values (with a neighbouring value as negative control).  json cases = random JSON-like "
@@ -60,7 +65,14 @@ ASSUMPTIONS = [
     "Python's json.loads / html.unescape and CPython's float() are the trusted base",
     "name-as-string sites (macro, block, cycle group, increment, include alias) are decided "
     "by a metamorphic relation between the tested spelling and a minimal spelling of the "
-    "same string at the partner position",
+    "same string at the partner position; an empty name is not tested there (it means 'no "
+    "name given')",
+    "after a minimal witness has been recorded for (site, outcome), later failures at that "
+    "site whose spelling contains all features of the witness are counted under its key "
+    "without being minimised again",
+    "integer-class literals with an exponent are keyed int-exp-literal, plain digit strings "
+    "int-literal; 'through-float' is assigned by a counterfactual run (the engine gives the "
+    "same output when int(float(text)) is written instead)",
 ]
 
 # ---------------------------------------------------------------------------
@@ -1295,6 +1307,15 @@ def run_shard(spec: dict[str, Any], ctx: Ctx) -> None:
 
 
 _ASTRAL_B = frozenset(_astral_boundaries())
+
+
+def exhaustive(tier: str, merged: dict[str, Any]) -> bool:  # noqa: ARG001
+    """The two bounded-exhaustive sub-spaces were completed: every string of length <= 3
+    over HOSTILE, and every code point U+0008..U+00FF under every spelling at every site."""
+    cps = merged["sets"].get("codepoints", set())
+    return (merged["counters"].get("adversarial_strings", 0) >= len(HOSTILE) ** 3 + len(HOSTILE) ** 2
+            + len(HOSTILE) + 1
+            and all("%04X" % cp in cps for cp in range(0x08, 0x100)))
 
 
 def replay(wit: dict[str, Any], ctx: Ctx) -> None:
